@@ -98,7 +98,7 @@ fn worker(a: &[String]) -> i32 {
 }
 
 fn replay(file: &str) -> i32 {
-    let s = match std::fs::read_to_string(file) {
+    let s = match std::fs::read(file).map(|b| String::from_utf8_lossy(&b).into_owned()) {
         Ok(s) => s,
         Err(e) => {
             eprintln!("machinery: cannot read {file}: {e}");
